@@ -652,6 +652,18 @@ class World(object):
         vz.LOW_RESOLUTION_TIME_SOURCE = lrt
     except Exception:
       pass
+    # the same singletons may be imported by name into any scales module (also by code that did not do so when this
+    # harness was written): rebind them wherever they appear, so that no module keeps a real-time clock or queue
+    import sys as _sys
+    for _name, _mod in list(_sys.modules.items()):
+      if _mod is None or not (_name == 'scales' or _name.startswith('scales.')):
+        continue
+      for _attr, _val in (('GLOBAL_TIMER_QUEUE', q), ('LOW_RESOLUTION_TIMER_QUEUE', lq), ('LOW_RESOLUTION_TIME_SOURCE', lrt)):
+        if _attr in getattr(_mod, '__dict__', {}):
+          try:
+            setattr(_mod, _attr, _val)
+          except Exception:
+            pass
     self.greenlets.extend([q._worker, lq._worker])
 
   # -- time --------------------------------------------------------------------------------------
